@@ -38,9 +38,16 @@ pub fn oracle(damaged: &[u8]) -> Result<(), (String, String)> {
 /// the damaged frame in a stream next to its undamaged original (a corrupted retransmission): the frame iterator must
 /// deliver exactly what the reference scanner delivers, in particular not the damaged copy
 pub fn oracle_in_stream(original: &[u8], damaged: &[u8]) -> Result<(), (String, String)> {
-    for order in 0..3 {
-        let mut buf: Vec<u8> = Vec::with_capacity(original.len() * 3);
+    for order in 0..4 {
+        let mut buf: Vec<u8> = Vec::with_capacity(original.len() * 5);
         match order {
+            3 => {
+                buf.extend_from_slice(original);
+                buf.extend_from_slice(original);
+                buf.extend_from_slice(damaged);
+                buf.extend_from_slice(original);
+                buf.extend_from_slice(original);
+            }
             0 => {
                 buf.extend_from_slice(original);
                 buf.extend_from_slice(damaged);
@@ -71,6 +78,12 @@ pub fn oracle_in_stream(original: &[u8], damaged: &[u8]) -> Result<(), (String, 
                 "c04:iterator-delivers-damaged-copy".into(),
                 format!("stream order {} (original/damaged): iterator frames {:?} consumed {}; reference {:?} consumed {}", order, frames, it.consumed(), rf, rt),
             ));
+        }
+        // mixed call sequences on one iterator (next, nth, size_hint, take, peek ...): never the damaged copy
+        for k in 0..3u64 {
+            if let Err((_, msg)) = crate::checks::c05::oracle_iter_ops(&buf, k * 7919 + order as u64 + buf.len() as u64) {
+                return Err(("c04:iterator-delivers-damaged-copy".into(), format!("stream order {} (original/damaged): {}", order, msg)));
+            }
         }
         // the same through repeated next_msg_frame calls
         let mut idx = 0usize;
